@@ -711,6 +711,7 @@ class Gen:
         types = self.types(p)
         # enumerate combinations of derivations for every addressing nonterminal in the RHS
         combos = [([], [], [], [], [])]  # (code, args, regs, disp exprs, decls)
+        disp_vars = []
         seg = None
         ctr = [0]
         for i, s in enumerate(p.syms):
@@ -727,6 +728,7 @@ class Gen:
                 for c in combos:
                     new.append((c[0], c[1] + [f"(0, in_n{i}, 0)"], c[2], c[3] + [f"(in_n{i} as u16)"],
                                 c[4] + [f"        let in_n{i}: {types[i]} = kani::any();\n"]))
+                disp_vars.append(f"in_n{i}")
             elif s in self.ADDR_NTS:
                 ds = self.derive(s, ctr)
                 for c in combos:
@@ -753,7 +755,7 @@ class Gen:
             h = H("h_" + slug(p.sig) + "__" + tag, p.sig + f"  [regs: {','.join(regs) or '-'}]", props, "P",
                   body_addr + e + '        kani::cover!(true, "reachable");\n',
                   ["addr.physical_is_seg16_plus_16bit_offset_mod_1mb", "addr.below_1mb"] + cl,
-                  replay={"kind": "l3", "shape": "addr", "regs": regs, "seg": bool(seg)})
+                  replay={"kind": "l3", "shape": "addr", "regs": regs, "seg": bool(seg), "disp": list(disp_vars)})
             h.group = "memory_addr"
             self.out.append(h)
             # LEA composed with this addressing derivation
@@ -777,7 +779,7 @@ class Gen:
                 h2 = H("h_lea__" + slug(p.sig).replace("memory_addr__", "") + "__" + tag,
                        lp.sig + "  [operand: " + p.sig + f"; regs: {','.join(regs) or '-'}]", ["C04", "C09"], "P",
                        lb + e2 + '        kani::cover!(true, "reachable");\n', ["lea.dest_is_16bit_offset_of_operand"] + cl2,
-                       replay={"kind": "l3", "shape": "lea", "regs": regs, "seg": bool(seg)})
+                       replay={"kind": "l3", "shape": "lea", "regs": regs, "seg": bool(seg), "disp": list(disp_vars)})
                 h2.group = "lea"
                 self.out.append(h2)
 
